@@ -1857,8 +1857,13 @@ pub(crate) fn resolve_temp_id(id: &str) -> Option<usize> {
             if !x.is_uppercase() {
                 return None;
             }
-            //(the remainder after the type letter, which may be wider than one byte)
-            return Some(iter.as_str().parse().ok()?);
+            //(the remainder after the type letter, which may be wider than one byte:
+            // digits only, `str::parse` would also take a sign)
+            let number = iter.as_str();
+            if number.is_empty() || !number.bytes().all(|b| b.is_ascii_digit()) {
+                return None;
+            }
+            return Some(number.parse().ok()?);
         }
     }
     None
